@@ -1,7 +1,7 @@
 (* C12 - Read failures are reported, never turned into silently missing rows.
    Property theorems only; proofs are in Proofs/. *)
 From SQ Require Import Model.Base Model.Record Model.Btree Model.Cmp Model.Low
-     Spec.Flat Spec.Deliver Proofs.BtreeP Proofs.DeliverP Proofs.LowP Proofs.FaultP Proofs.ScanP.
+     Spec.Flat Spec.Deliver Proofs.BtreeP Proofs.DeliverP Proofs.LowP Proofs.FaultP Proofs.ScanP Proofs.FaultMinP.
 
 (* the traversals deliver the rows up to the first failing page / cell and
    then report that failure: iter = deliver the flattening, where the
@@ -56,3 +56,37 @@ Theorem C12_store : forall pg' pg U, (forall n, le_res (pg' n) (pg n)) ->
   forall n, le_res (openp pg' U n) (openp pg U n).
 Proof. exact openp_of_le. Qed.
 Print Assumptions C12_store.
+
+(* the from-key operations (Go's error-remembering bisection at every page, first child
+   searched, later children iterated): with ANY callback that only adds to the rows it has
+   collected - any early stop included - the faulty run equals the fault-free run, or fails
+   having collected a prefix (the lists are newest first) of what the fault-free run collects *)
+Theorem C12_scan_min : forall pg' pg op' op npages, (forall n, le_res (pg' n) (pg n)) -> (forall n, le_res (op' n) (op n)) ->
+  forall root from (cb : record -> list record -> flow * list record), (forall r, grows _ lext (cb r)) -> forall s,
+  out_le _ lext (index_scan_min pg' op' npages _ root from cb s) (index_scan_min pg op npages _ root from cb s).
+Proof. exact index_scan_min_fault. Qed.
+Print Assumptions C12_scan_min.
+
+Theorem C12_scan_range : forall pg' pg op' op npages, (forall n, le_res (pg' n) (pg n)) -> (forall n, le_res (op' n) (op n)) ->
+  forall root from to (cb : record -> list record -> flow * list record), (forall r, grows _ lext (cb r)) -> forall s,
+  out_le _ lext (index_scan_range pg' op' npages _ root from to cb s) (index_scan_range pg op npages _ root from to cb s).
+Proof. exact index_scan_range_fault. Qed.
+Print Assumptions C12_scan_range.
+
+Theorem C12_scan_eq : forall pg' pg op' op npages, (forall n, le_res (pg' n) (pg n)) -> (forall n, le_res (op' n) (op n)) ->
+  forall root k (cb : record -> list record -> flow * list record), (forall r, grows _ lext (cb r)) -> forall s,
+  out_le _ lext (index_scan_eq pg' op' npages _ root k cb s) (index_scan_eq pg op npages _ root k cb s).
+Proof. exact index_scan_eq_fault. Qed.
+Print Assumptions C12_scan_eq.
+
+(* the collecting callbacks of the checks are of that kind *)
+Theorem C12_collectors_grow : forall k (r : record), grows _ lext (stop_after k r).
+Proof. exact stop_after_grows. Qed.
+Print Assumptions C12_collectors_grow.
+
+(* Table.Rowid under faults: the fault-free answer or an error - never "not found" for a
+   row that is there, never another row *)
+Theorem C12_rowid : forall pg' pg op' op npages, (forall n, le_res (pg' n) (pg n)) -> (forall n, le_res (op' n) (op n)) ->
+  forall root rowid, le_res (table_rowid pg' op' npages root rowid) (table_rowid pg op npages root rowid).
+Proof. exact table_rowid_fault. Qed.
+Print Assumptions C12_rowid.
